@@ -43,7 +43,7 @@ def new_wire(I, bw, den=None, cls='WireVector', hint='w'):
     o = SObj(cls, dict(bitwidth=None if bw is None else Sym(term(bw)),
                        _den=None if den is None else Sym(term(den)),
                        _block=block_of(I), name='%s%d' % (hint, next(I.st.n))),
-             oid=z3.Int('%s_id!%d' % (hint, next(I.st.n))))
+             oid=z3.IntVal(100000 + next(I.st.n)))          # distinct objects have distinct identities
     if cls == 'Const' and den is not None:
         o.fields['val'] = Sym(term(den))
     return o
